@@ -1,4 +1,5 @@
 import CoapVerif.Lemmas.TlsGate
+import CoapVerif.Lemmas.TlsLedger
 import CoapVerif.Lemmas.PskSelect
 import CoapVerif.Spec.TlsCreds
 /-
@@ -714,6 +715,149 @@ theorem accepts_ok_key (cfg : TlsCreds.Cfg) (h : TlsCreds.accepts cfg = .ok) :
           obtain ⟨_, hne, heq⟩ := ite_ok _ h
           rw [if_neg hne, heq]
 
+/-! ### the serial-number ledger: the delay queue over WHOLE histories
+
+Every message the application submits gets a ghost serial number (`QMsg.sn`, from `Sess.next`); a NACK that names a message and
+a PDU written carry the serial of their message.  `Coap.TlsGate.Core` (Lemmas/TlsLedger.lean) is the ledger that every function
+of M preserves until the TLS library reports a completed handshake: nothing is in flight, the delay queue holds its messages in
+submission order (serials strictly increasing), nothing queued has been reported, nothing has been reported twice, and a
+Confirmable that was seen in the queue of a live session is either still there (session still live) or gone and reported once.
+`nk j tr` = the number of NACKs in `tr` that name message `j` (the advisory COAP_NACK_ICMP_ISSUE notification, after which
+coap_session_disconnected_lkd returns without touching the queues, is not counted: see `icmp_notification_is_extra`). -/
+
+theorem run_append (s : Sess) (a b : List (Ev × List Orc)) :
+    s.run (a ++ b) = (((s.run a).1.run b).1, (s.run a).2 ++ ((s.run a).1.run b).2) := by
+  induction a generalizing s with
+  | nil => simp [Sess.run]
+  | cons eo t ih =>
+    obtain ⟨e, o⟩ := eo
+    simp only [List.cons_append, Sess.run, ih, List.append_assoc]
+
+/-- what the ledger needs at the start of a history: nothing in flight, the delay queue in submission order with serials
+already handed out, lg_crcv entries likewise, a Confirmable with an lg_crcv entry is queued (all trivially true of a new
+session: everything is empty) -/
+structure Ledger0 (s : Sess) : Prop where
+  infl : s.inflight = []
+  srt : (s.delayq.map (·.sn)).Pairwise (· < ·)
+  lt : ∀ q ∈ s.delayq, q.sn < s.next
+  lgl : ∀ g ∈ s.lgCrcv, g.sn < s.next
+  lgc : ∀ g ∈ s.lgCrcv, g.con = true → g ∈ s.delayq
+
+/-- what the run-level induction carries between events: the gate invariant, and the ledger unless the oracle has reported
+success (`n0 j` = how often message `j` has been reported so far) -/
+structure LedOk (m : Mon) (n0 : Nat → Nat) (t : Bool) (k : Nat) (s : Sess) : Prop where
+  ok : SessOk m s
+  led : m.seen = true ∨ ∀ orc, Core n0 t k { s := s, orc := orc }
+
+theorem step_ledOk {m : Mon} {n0 : Nat → Nat} {t : Bool} {k : Nat} {s : Sess} (e : Ev) (orc : List Orc) (h : LedOk m n0 t k s) :
+    LedOk (m.run (s.step e orc).2) (fun j => n0 j + nk j (s.step e orc).2) t k (s.step e orc).1 := by
+  have hb : Both m n0 false t k { s := s, orc := orc } :=
+    ⟨inv_of_sessOk orc h.ok, h.led.imp (fun hs => by simpa using hs) fun hc => hc orc⟩
+  have hb' := stepCtx_both s e orc hb
+  exact ⟨sessOk_of_inv hb'.inv, hb'.led.imp id fun hc orc' => core_rebase orc' hc⟩
+
+theorem run_ledOk {m : Mon} {n0 : Nat → Nat} {t : Bool} {k : Nat} {s : Sess} (evs : List (Ev × List Orc)) (h : LedOk m n0 t k s) :
+    LedOk (m.run (s.run evs).2) (fun j => n0 j + nk j (s.run evs).2) t k (s.run evs).1 := by
+  induction evs generalizing m n0 s with
+  | nil => simpa [Sess.run] using h
+  | cons eo tl ih =>
+    obtain ⟨e, o⟩ := eo
+    have h2 := ih (step_ledOk e o h)
+    simp only [Sess.run, Mon.run_append]
+    have hf : (fun j => n0 j + nk j ((s.step e o).2 ++ ((s.step e o).1.run tl).2)) =
+        (fun j => n0 j + nk j (s.step e o).2 + nk j ((s.step e o).1.run tl).2) := by
+      funext j; rw [nk_append, Nat.add_assoc]
+    rw [hf]
+    exact h2
+
+theorem ledOk_start {s : Sess} (h : Unauth s) (hl : Ledger0 s) : LedOk ⟨true, false⟩ (fun _ => 0) false 0 s :=
+  ⟨unauth_sessOk h, Or.inr fun _ => ⟨hl.infl, hl.srt, hl.lt, hl.lgl, hl.lgc, by simp, by simp, by simp, by simp, by simp⟩⟩
+
+theorem not_seen_of_no_mark (tr : List Out) (hnm : Out.hsOkMark ∉ tr) : ((⟨true, false⟩ : Mon).run tr).seen ≠ true := by
+  intro hs
+  rcases mon_seen_mark _ _ hs with h1 | ⟨x, hx, hm⟩
+  · simp at h1
+  · rw [isMark_eq hm] at hx; exact hnm hx
+
+/-- THE LEDGER, over all histories in which the TLS library never reports a completed handshake (credentials that do not
+match, a handshake that never finishes, a session that is abandoned or released): at the end of EVERY such history of a
+session — any events, any answers of the TLS library —
+  * no message at all has been reported more than once (Confirmable or not: D19g's lg_crcv report included);
+  * the delay queue holds its messages in submission order (serials strictly increasing: each message once);
+  * nothing that is queued has been reported; nothing is in flight (nothing was written: `nothing_queued_written_before_established`). -/
+theorem ledger_before_established {s : Sess} (h : Unauth s) (hl : Ledger0 s) (evs : List (Ev × List Orc))
+    (hnm : Out.hsOkMark ∉ (s.run evs).2) :
+    (∀ j, nk j (s.run evs).2 ≤ 1) ∧ ((s.run evs).1.delayq.map (·.sn)).Pairwise (· < ·) ∧
+      (∀ x ∈ (s.run evs).1.delayq, nk x.sn (s.run evs).2 = 0) ∧ (s.run evs).1.inflight = [] := by
+  have h1 := run_ledOk evs (ledOk_start h hl)
+  rcases h1.led with hs | hc
+  · exact absurd hs (not_seen_of_no_mark _ hnm)
+  · have hc := hc []
+    exact ⟨fun j => by simpa using hc.n1 j, hc.srt, fun x hx => by simpa using hc.nq x hx, hc.infl⟩
+
+/-- (a) EXACTLY ONE NACK, trace level.  Take ANY history `pre ++ rest` of a session that starts unauthenticated, in which the
+TLS library never reports a completed handshake, and any Confirmable `q` that is in the delay queue after `pre` while the
+session is live (state not NONE — a handshake is under way —, not freed).  Then, whatever the events of `rest` and the answers of
+the TLS library are:
+  * nothing is ever written, in clear or through the TLS layer;
+  * at the end, EITHER `q` is still queued, the session is still live and `q` has not been reported at all, OR `q` is no longer
+    queued and has been reported by exactly ONE NACK in the whole history — never two, and never zero once it left the queue;
+  * when the session has failed (state NONE: handshake failure, alert, DTLS retransmissions exhausted, connection closed,
+    coap_session_disconnected) or was freed (released / reclaimed) by the end, it IS the second case: exactly one NACK.
+Carved out (and only this): NACKs with reason COAP_NACK_ICMP_ISSUE are not counted — coap_session_disconnected_lkd(ICMP) names
+the first lg_crcv entry's request and returns, the request stays queued and is reported again when the session fails
+(`icmp_notification_is_extra`). -/
+theorem queued_con_one_nack_on_failure {s : Sess} (h : Unauth s) (hl : Ledger0 s) (pre rest : List (Ev × List Orc)) (q : QMsg)
+    (hq : q ∈ (s.run pre).1.delayq) (hc : q.con = true) (hal : (s.run pre).1.state ≠ .none)
+    (hfr : (s.run pre).1.freed = false) (hnm : Out.hsOkMark ∉ (s.run (pre ++ rest)).2) :
+    (∀ o ∈ (s.run (pre ++ rest)).2, ∀ tls v sn, o ≠ Out.tx tls v sn) ∧
+    ((∃ x ∈ (s.run (pre ++ rest)).1.delayq, x.sn = q.sn ∧ x.con = true ∧ (s.run (pre ++ rest)).1.state ≠ .none ∧
+        (s.run (pre ++ rest)).1.freed = false ∧ nk q.sn (s.run (pre ++ rest)).2 = 0) ∨
+     ((∀ x ∈ (s.run (pre ++ rest)).1.delayq, x.sn ≠ q.sn) ∧ nk q.sn (s.run (pre ++ rest)).2 = 1)) ∧
+    ((s.run (pre ++ rest)).1.state = .none ∨ (s.run (pre ++ rest)).1.freed = true →
+      nk q.sn (s.run (pre ++ rest)).2 = 1) := by
+  have hnotx : ∀ o ∈ (s.run (pre ++ rest)).2, ∀ tls v sn, o ≠ Out.tx tls v sn := by
+    intro o ho tls v sn heq
+    subst heq
+    obtain ⟨a, b, hab⟩ := List.append_of_mem ho
+    have := nothing_queued_written_before_established h (pre ++ rest) a b tls v sn hab
+    exact hnm (by rw [hab]; simp [this])
+  have hdich : (∃ x ∈ (s.run (pre ++ rest)).1.delayq, x.sn = q.sn ∧ x.con = true ∧ (s.run (pre ++ rest)).1.state ≠ .none ∧
+        (s.run (pre ++ rest)).1.freed = false ∧ nk q.sn (s.run (pre ++ rest)).2 = 0) ∨
+      ((∀ x ∈ (s.run (pre ++ rest)).1.delayq, x.sn ≠ q.sn) ∧ nk q.sn (s.run (pre ++ rest)).2 = 1) := by
+    rw [run_append] at hnm ⊢
+    simp only [List.mem_append, not_or] at hnm
+    have h1 := run_ledOk pre (ledOk_start (s := s) h hl)
+    have hc1 : ∀ orc, Core (fun j => 0 + nk j (s.run pre).2) false 0 { s := (s.run pre).1, orc := orc } := by
+      rcases h1.led with hs | hcore
+      · exact absurd hs (not_seen_of_no_mark _ hnm.1)
+      · exact hcore
+    have h1' : LedOk ((⟨true, false⟩ : Mon).run (s.run pre).2) (fun j => 0 + nk j (s.run pre).2) true q.sn (s.run pre).1 :=
+      ⟨h1.ok, Or.inr fun orc => core_track (hc1 orc) q hq hc hal hfr⟩
+    have h2 := run_ledOk rest h1'
+    rcases h2.led with hs | hcore
+    · rw [← Mon.run_append] at hs
+      exact absurd hs (not_seen_of_no_mark _ (by simp [hnm.1, hnm.2]))
+    · have hcore := hcore []
+      rcases hcore.trk rfl with ⟨x, hx, e1, e2, e3, e4⟩ | ⟨e1, e2⟩
+      · left
+        refine ⟨x, hx, e1, e2, e3, e4, ?_⟩
+        have := hcore.nq x hx
+        rw [e1] at this
+        simp only [nk_nil, Nat.add_zero, Nat.zero_add] at this
+        rw [nk_append]; exact this
+      · right
+        refine ⟨e1, ?_⟩
+        simp only [nk_nil, Nat.add_zero, Nat.zero_add] at e2
+        rw [nk_append]; exact e2
+  refine ⟨hnotx, hdich, ?_⟩
+  intro hend
+  rcases hdich with ⟨x, _, _, _, e3, e4, _⟩ | ⟨_, e2⟩
+  · rcases hend with hend | hend
+    · exact absurd hend e3
+    · rw [e4] at hend; simp at hend
+  · exact e2
+
 /-! ### non-vacuity -/
 
 section PskSelectExamples
@@ -840,6 +984,42 @@ example :
 /-- release with a queued CON: closed first, then NACKed once -/
 example : (hsClient.run [(.appSend true 1 7 "01", []), (.release, [])]).2 =
       [.bye, .ev .closed, .nack .tls (some "01") (some 0)] := by
+  decide
+
+/-- the ledger's start condition holds for the sessions histories start from (everything empty) -/
+example : Ledger0 hsClient := ⟨rfl, by decide, by decide, by decide, by decide⟩
+example : Ledger0 tlsHsClient := ⟨by decide, by decide, by decide, by decide, by decide⟩
+example : Ledger0 (newClient [.env true, .hs .again]).1 := ⟨by decide, by decide, by decide, by decide, by decide⟩
+
+/-- an instance of every hypothesis of `queued_con_one_nack_on_failure`: `pre` = two Confirmables and a Non-confirmable are
+queued, `rest` = a third Confirmable is queued, the DTLS timer fires, an alert arrives (handshake failed), another request is
+submitted on the dead session, the application releases it.  Message 0 is in the queue of a live session after `pre`, no
+success in the whole history … -/
+def failHist : List (Ev × List Orc) × List (Ev × List Orc) :=
+  ([(.appSend true 1 7 "01", []), (.appSend false 1 8 "02", []), (.appSend true 1 9 "03", [])],
+   [(.appSend true 1 10 "04", []), (.tlsTimeout, [.hs .again]), (.dgram, [.hs .fatalrx]), (.appSend true 1 11 "05", []),
+    (.release, [])])
+
+example : (⟨0, true, 1, 7, "01", 0⟩ : QMsg) ∈ (hsClient.run failHist.1).1.delayq ∧ (hsClient.run failHist.1).1.state ≠ .none ∧
+    (hsClient.run failHist.1).1.freed = false ∧ Out.hsOkMark ∉ (hsClient.run (failHist.1 ++ failHist.2)).2 := by decide
+
+/-- … and what the theorem says about it, computed: one NACK each for 0, 2, 3 (at the failure) and 4 (at the release), none
+for the Non-confirmable 1, nothing written -/
+example : (hsClient.run (failHist.1 ++ failHist.2)).2 =
+    [.nack .tls (some "01") (some 0), .nack .tls (some "03") (some 2), .nack .tls (some "04") (some 3), .ev .closed,
+     .nack .tls (some "05") (some 4)] ∧
+    (List.range 6).map (fun j => nk j (hsClient.run (failHist.1 ++ failHist.2)).2) = [1, 0, 1, 1, 1, 0] := by decide
+
+/-- THE CARVE-OUT of `queued_con_one_nack_on_failure` is real: block mode, a Confirmable Observe registration queued during the
+handshake, coap_session_disconnected_lkd(COAP_NACK_ICMP_ISSUE) (the peer's port is unreachable) reports the first lg_crcv
+entry's request and returns — the request stays queued —, then the handshake times out: the application sees the same request
+in two NACK callbacks (ICMP_ISSUE, then TLS_FAILED); `nk` counts the second only. -/
+theorem icmp_notification_is_extra :
+    (({ hsClient with blockMode := true, tmoCount := 4 } : Sess).run
+        [(.appSendL true true 1 7 "01", []), (.appDisconnect .icmp, []), (.tlsTimeout, [])]).2 =
+      [.nack .icmp (some "01") (some 0), .nack .tls (some "01") (some 0), .bye, .ev .closed] ∧
+    nk 0 [.nack .icmp (some "01") (some 0), .nack .tls (some "01") (some 0), .bye, .ev .closed] = 1 ∧
+    List.countP (names 0) [.nack .icmp (some "01") (some 0), .nack .tls (some "01") (some 0), .bye, .ev .closed] = 2 := by
   decide
 
 /-- a cleartext CoAP CON GET (0x41 …) at the endpoint from an unknown peer: nothing -/
